@@ -174,6 +174,33 @@ def extract():
                     key_on_string = on_str
     if key_on_string is None:
         _err("doPronounPlacement: pros.sort(key=lambda …) not found")
+    # the "already elided" guard of loop 2: the end of the whole realization, or (since commit c4595d2) the end of its
+    # first word in the sense of sepWordREC
+    first_word = whole = False
+    for node in ast.walk(dpp):
+        if isinstance(node, ast.Call) and isinstance(node.func, ast.Attribute):
+            f = node.func
+            if f.attr == "match" and isinstance(f.value, ast.Call) and isinstance(f.value.func, ast.Attribute) \
+                    and f.value.func.attr == "sepWordRE":
+                first_word = True
+            if f.attr == "endswith" and isinstance(f.value, ast.Attribute) and f.value.attr == "realization" \
+                    and node.args and _lit(node.args[0]) == "'":
+                whole = True
+    if first_word == whole:
+        _err("doPronounPlacement: cannot tell how an already elided pronoun is recognised")
+    res["elided_first_word"] = first_word
+    pat = None
+    for node in ast.walk(_src("ConstituentFr.py")):
+        if isinstance(node, ast.Assign) and any(isinstance(t, ast.Name) and t.id == "sepWordREC" for t in node.targets) \
+                and isinstance(node.value, ast.Call) and node.value.args and isinstance(node.value.args[0], ast.Constant) \
+                and isinstance(node.value.args[0].value, str):
+            pat = node.value.args[0].value
+    if pat is None:
+        _err("ConstituentFr.sepWordREC not found")
+    m2 = re.fullmatch(r"\(\(\?:\[\^<\\w(.*?)\]\*\(\?:<\[\^>\]\+>\)\?\)\*\)\(\[\\w(.*?)\]\+\)\?\(\.\*\)", pat)
+    if not m2 or m2.group(1) != m2.group(2):
+        _err("ConstituentFr.sepWordREC: unexpected shape " + pat)
+    res["sep_word_extra"] = m2.group(2)
     res["sort_neg_as_pas"] = neg_as_pas
     res["sort_key_on_string"] = key_on_string
     # Terminal.isReflexive: is a verb without `pat` guarded (`pat is None or "réfl" not in pat`) or does `"réfl" not in None` raise?
@@ -321,6 +348,10 @@ def generate():
     w("def sortNegAsPas : Bool := %s" % ("true" if r["sort_neg_as_pas"] else "false"))
     w("/-- Terminal.isReflexive: `pat is None or \"réfl\" not in pat` (true) or the bare `\"réfl\" not in pat` that raises TypeError on a verb without `pat` (false) -/")
     w("def reflGuardsNoPat : Bool := %s" % ("true" if r["refl_guards_no_pat"] else "false"))
+    w("/-- the guard « already elided » of doPronounPlacement tests the first word of the realization (true, since commit c4595d2) or the end of the whole realization (false) -/")
+    w("def elidedFirstWord : Bool := %s" % ("true" if r["elided_first_word"] else "false"))
+    w("/-- ConstituentFr.sepWordREC: the characters of the word class beside `\\w` -/")
+    w("def sepWordExtra : List Char := [%s]" % ", ".join("'%s'" % ("\\'" if c == "'" else c) for c in r["sep_word_extra"]))
     w("def cliticCases : List Str := %s" % lstrs(r["clitic_cases"]))
     w("def relativeStop : List Str := %s" % lstrs(r["relative_stop"]))
     w("def compoundList : List Str := %s" % lstrs(r["compound_list"]))
